@@ -24,7 +24,7 @@ pub type Kmer31 = VarIntKmer<u64, debruijn::kmer::K31>;
 pub type Kmer4V = VarIntKmer<u8, K4u8>;
 
 /// A k-mer type whose raw storage the harness can make symbolic and read back.
-pub trait SymK: Kmer {
+pub trait SymK: Kmer + Send + Sync {
     /// total bits of the storage word
     const TOTAL_BITS: usize;
     /// arbitrary storage, no invariant assumed
@@ -66,7 +66,7 @@ macro_rules! symk_int {
                 IntKmer { storage: v as $t }
             }
         }
-        impl<KS: KmerSize> SymK for VarIntKmer<$t, KS> {
+        impl<KS: KmerSize + Send + Sync> SymK for VarIntKmer<$t, KS> {
             const TOTAL_BITS: usize = <$t>::BITS as usize;
             fn any_raw() -> Self {
                 VarIntKmer {
